@@ -17,7 +17,7 @@ import (
 	sdk "github.com/cosmos/cosmos-sdk/types"
 )
 
-func init() { props["C13"] = func(r *Rec) { runC13(r); ubiFor(r, "C13") } }
+func init() { props["C13"] = func(r *Rec) { runC13(r); c13Restart(r); ubiFor(r, "C13") } }
 
 func runC13(r *Rec) {
 	w := NewWorld(WorldOpts{NAcc: 4, NVal: 1, SudoAccs: []int{0}})
@@ -663,4 +663,28 @@ func runC13(r *Rec) {
 		}
 	}
 	r.Extra["rule"] = "A: AllocateTokens/InflationPossible on the real distributor keeper with snapshots, supply, time gaps (0 s .. 1000 d), rates, annual limits and periods drawn around every comparison; B: the real UpsertUBI proposal handler with 64-bit boundary amounts/periods/caps and 0-2 existing records; C: the real UBI EndBlocker over block-time sequences at and around the period boundary; D: tokens keeper MintCoins/BurnCoins against caps and owner edits through the msg server; E: native-mint finding. Non-trivial: allocation minted, upsert accepted, payout made, registry op succeeded. Distinct by input."
+}
+
+// c13Restart: the monetary bounds hold across a restart from an exported genesis. After some weeks of blocks - the year-start
+// and period snapshots are on record, inflation has been minted against them - the application state is exported and a new
+// chain is started from it at the ORIGINAL genesis time; what the distributor keeps (snapshots, treasury, proposer votes)
+// must be the same on both chains: a lost or reset snapshot re-opens the annual gate and restarts the period target.
+func c13Restart(r *Rec) {
+	r.Mark("restart from exported genesis")
+	r.OnlyProp, r.AliasPrefix = "C13", map[string]string{"C12/store-diff/distributor": "C13/restart/distributor-state-not-restored", "C12/store-diff/ubi": "C13/restart/ubi-state-not-restored"}
+	defer func() { r.OnlyProp, r.AliasPrefix = "", nil }()
+	w := NewWorld(WorldOpts{NAcc: 4, NVal: 2, SudoAccs: []int{3}})
+	day := 24 * time.Hour
+	for d := 0; d < 6; d++ {
+		br := w.Block(nil, BlockOpts{Dt: time.Duration(3+2*d) * day})
+		if br.Panicked != nil {
+			r.Count("restart:block-panicked")
+			return
+		}
+		w.ApplyUpdates(br.Updates)
+		if d >= 2 {
+			c12RoundTrip(r, w, fmt.Sprintf("restart@block%d", w.height))
+			r.Count("restart:round-trips")
+		}
+	}
 }
